@@ -861,6 +861,7 @@ def any_model_form(case):
 
 
 _NEXT = None
+_LOOP = []
 
 
 def following_packets():
@@ -907,11 +908,9 @@ def read_stream(stream, cuts=()):
             await asyncio.sleep(0)
         except BaseException:  # noqa
             pass
-    loop = asyncio.new_event_loop()
-    try:
-        loop.run_until_complete(main())
-    finally:
-        loop.close()
+    if not _LOOP:
+        _LOOP.append(asyncio.new_event_loop())      # one loop for the whole run (the reader only needs one to be constructed in)
+    _LOOP[0].run_until_complete(main())
     return res['r']
 
 
